@@ -1,6 +1,122 @@
-(* placeholder while the pipeline is brought up; replaced by the real statements *)
+(* Property C02 - red-black tree (src/rbt.c, include/a/rbt.h).
+   "After every insert or remove, in any interleaving, the red-black container holds exactly the elements
+    inserted and not yet removed as a binary search tree whose root is black, in which no red node has a
+    red child, every path from the root to a missing child crosses the same number of black nodes, and
+    parent links agree with child links.  Duplicate insertion returns the resident element unchanged and
+    lookup finds an element exactly when it is present."
+
+   Model: coq/C02/RbtDefs.v (run / step / insert / remove / find / heap_of).  Vocabulary: coq/C02/RbtSpec.v
+   (RB, no_red_red, equal_black_paths, BST, amap / astep / arun, holds, reachable, links_consistent).
+   Non-vacuity examples: coq/C02/RbtExamples.v.  All theorems are for every finite history / every tree;
+   nothing is bounded. *)
 From Coq Require Import ZArith List.
-From LibaV Require Import C02.RbtDefs.
-Theorem rb_find_empty : forall k, find k E = None.
-Proof. exact (fun k => eq_refl). Qed.
-Print Assumptions rb_find_empty.
+From LibaV Require Import C02.RbtDefs C02.RbtSpec C02.RbtInvProofs C02.RbtSetProofs C02.RbtHeapProofs
+  C02.RbtMainProofs C02.RbtExamples.
+Import ListNotations.
+
+(* root black /\ no red node has a red child /\ all root-to-missing-child paths cross equally many black
+   nodes /\ binary search tree, after every operation of every history *)
+Theorem rb_inv_reachable :
+  forall (ops : list op) (t : tree) (rs : list ret), run E ops = (t, rs) -> RB t.
+Proof. exact rb_inv_reachable_lemma. Qed.
+Print Assumptions rb_inv_reachable.
+
+(* the container holds exactly the abstract contents (a map key -> node identity evolving by astep);
+   all return values (inserted / duplicate resident / removed node / found node / none) are the abstract
+   ones; lookup answers exactly the abstract map; the in-order listing is strictly increasing *)
+Theorem rb_refines_set :
+  forall (ops : list op) (t : tree) (rs : list ret),
+    run E ops = (t, rs) ->
+    rs = snd (arun aempty ops) /\
+    holds t (fst (arun aempty ops)) /\
+    (forall k, find k t = fst (arun aempty ops) k) /\
+    sorted (elems t).
+Proof. exact rb_refines_set_lemma. Qed.
+Print Assumptions rb_refines_set.
+
+(* duplicate insertion: the resident is returned, the tree is the same tree; and the returned node is
+   the one carrying the key *)
+Theorem rb_duplicate_insert_unchanged :
+  forall t k i t' j tg,
+    step t (OpInsert k i) = (t', RetDup j, tg) -> t' = t /\ insert k i t = InsertDup j.
+Proof. exact rb_dup_lemma. Qed.
+Print Assumptions rb_duplicate_insert_unchanged.
+
+Theorem rb_duplicate_insert_resident :
+  forall t k i j,
+    reachable t -> insert k i t = InsertDup j -> In (k, j) (elems t) /\ find k t = Some j.
+Proof. exact rb_dup_resident_lemma. Qed.
+Print Assumptions rb_duplicate_insert_resident.
+
+(* parent links agree with child links: for EVERY tree with pairwise distinct node identities ... *)
+Theorem heap_of_parent_links :
+  forall t : tree, NoDup (ids t) -> links_consistent (root_id t) (heap_of t).
+Proof. exact heap_of_parent_links_lemma. Qed.
+Print Assumptions heap_of_parent_links.
+
+(* ... in particular after every history that never inserts a node that is currently linked *)
+Theorem rb_parent_links_reachable :
+  forall (ops : list op) (t : tree) (rs : list ret),
+    fresh_run E ops = true -> run E ops = (t, rs) ->
+    links_consistent (root_id t) (heap_of t).
+Proof. exact rb_parent_links_lemma. Qed.
+Print Assumptions rb_parent_links_reachable.
+
+(* the model never takes a path on which the C dereferences NULL or violates an A_ASSUME *)
+Theorem rb_no_fault :
+  forall (ops : list op) (t : tree) (rs : list ret), run E ops = (t, rs) -> ~ In RetFault rs.
+Proof. exact rb_no_fault_lemma. Qed.
+Print Assumptions rb_no_fault.
+
+Theorem rb_assume_facts :
+  forall (t : tree) (x : Z),
+    reachable t ->
+    remove x t <> RemoveFault /\
+    (forall xi, insert x xi t <> InsertFault) /\
+    (forall j t' tg, remove x t = RemoveOk j t' tg -> ~ In TF_null_mirror tg).
+Proof. exact rb_assume_lemma. Qed.
+Print Assumptions rb_assume_facts.
+
+(* the A_ASSUME hints of a_rbt_remove_adjust as facts about a deficient position: the sibling of a
+   subtree lacking one black node is not null (rbt.c:239, :339); a red sibling has two non-null
+   children (rbt.c:250, :344) *)
+Theorem rb_assume_sibling_nonnull :
+  forall n s : tree, S (bh n) = bh s -> s <> E.
+Proof. exact assume_sibling_nonnull. Qed.
+Print Assumptions rb_assume_sibling_nonnull.
+
+Theorem rb_assume_red_sibling_children_nonnull :
+  forall n sl sk si sr,
+    rbwf (T Red sl sk si sr) -> S (bh n) = bh (T Red sl sk si sr) -> sl <> E /\ sr <> E.
+Proof. exact assume_red_sibling_children_nonnull. Qed.
+Print Assumptions rb_assume_red_sibling_children_nonnull.
+
+(* the removal invariant, per subtree: a deficit status means "valid, black height one less" *)
+Theorem rb_removal_invariant :
+  forall x t,
+    rbwf t ->
+    match del x t with
+    | DelAbsent => True
+    | DelRes _ t' st tg =>
+        match st with
+        | DNone => rbwf t' /\ bh t' = bh t /\ (col t = Black -> col t' = Black)
+        | DNull => t' = E /\ bh t = 1%nat
+        | DNode => rbwf t' /\ S (bh t') = bh t /\ col t' = Black
+        | DFault => False
+        end /\ ~ In TF_null_mirror tg
+    end.
+Proof. exact del_inv_holds. Qed.
+Print Assumptions rb_removal_invariant.
+
+(* the local invariant used in the proofs is exactly the worded one *)
+Theorem rb_local_invariant_is_worded :
+  forall t, rbwf t <-> no_red_red t /\ equal_black_paths t.
+Proof. exact rbwf_iff_worded. Qed.
+Print Assumptions rb_local_invariant_is_worded.
+
+(* sanity: these are the real red-black conditions - they force logarithmic height *)
+Theorem rb_height_log :
+  forall (ops : list op) (t : tree) (rs : list ret),
+    run E ops = (t, rs) -> (height t <= 2 * Nat.log2 (size t + 1))%nat.
+Proof. exact rb_height_log_reachable. Qed.
+Print Assumptions rb_height_log.
